@@ -79,14 +79,17 @@ ItemsV == << E1, E2, Dve(4, 5, 1, 1, 2, 3),
              Dve(5, 2, 1, 1, 2, 3),
              Dve(5, 4, 2, 1, 2, 5),
              Dve(4, 6, 1, 1, 2, 5),
-             Dve(5, 5, 1, 2, 0, 2) >>
+             Dve(5, 5, 1, 2, 0, 2),
+             [E2 EXCEPT !.a.sig = -11],
+             [E2 EXCEPT !.b.sig = -11] >>
 """
 ITEMS_DOC = ("items: 1 = validator 4 at height 2 (expires first), 2 = validator 4 at height 4 (nil / block precommits), 3 = validator 4 at "
              "height 5 (the height being decided at the start: reported by consensus before block 5 exists), 4 = item 2 with a junk second "
              "signature, 5 = correct validator 1 framed with votes signed by validator 4, 6 = item 2 with a wrong validator index, 7 = "
              "validator 5 at height 2 (joins the set only at height 4), 8 = validator 5 at height 4, 9 = validator 4 at height 6 (8 and 9: two votes for the SAME block hash with different part-set hashes, "
              "reported by consensus in both arrival orders through the real NewDuplicateVoteEvidence), 10 = validator 5 at "
-             "height 5 (second and third equivocations while their height is being decided); consensus reports 1, 2, 3, 8, 9, 10, and 2, 3, 9, "
+             "height 5 (second and third equivocations while their height is being decided), 11 / 12 = item 2 with the first / second vote's "
+             "signature re-encoded as its high-s twin (r, N-s, v xor 1), built from the real signed vote; consensus reports 1, 2, 3, 8, 9, 10, and 2, 3, 9, "
              "10 with ITS stamp (time off the block time, total of another set) which the pool has to replace by the facts of the height")
 
 
@@ -109,8 +112,8 @@ def run(c):
         "Verify: every case of MC_EvidenceVerify - a well-formed duplicate-vote evidence for (validator in / not in / joining / leaving the set, "
         "height before / after the two set changes, round, type, ordered block pair incl. nil) with up to D mutations out of 75 atoms (either "
         "vote's address, index, height, round, type incl. a non-vote type, block id incl. a malformed one, the same block hash with another "
-        "part-set hash and with another part-set total only, 10 signature classes: other key, junk, "
-        "empty, genuine signature over sign bytes that differ in one of height / round / type / block / vote time / chain id; stated power, "
+        "part-set hash and with another part-set total only, 13 signature classes: other key, junk, "
+        "empty, the genuine signature as high-s twin (r, N-s, v xor 1) / with v+4 / with a trailing byte, genuine signature over sign bytes that differ in one of height / round / type / block / vote time / chain id; stated power, "
         "total, evidence time on and off a block time) - is built as a REAL DuplicateVoteEvidence with real secp256k1 signatures, sent through "
         "the evidence reactor's wire codec (ValidateBasic) into AddEvidence of a fresh real Pool looking at a real chain (3 real nodes, two "
         "validator-set changes) at 4 pool heights under two parameter sets (blocks-age or duration-age binding), and handed to the exported "
@@ -184,8 +187,8 @@ def run(c):
         must_fail(c, c.tlc("evidence", "MCgen.cfg", module="MCgen", files=files, timeout=900, workers=4, tag="reach " + inv), "verify", inv)
 
     # ------------------------------------------------------------------ MC_EvidencePool
-    lists_full = "ListsV == {<<k>> : k \\in 1..10} \\cup {<<1,1>>, <<2,2>>, <<1,2>>, <<2,1>>, <<2,4>>, <<4,2>>, <<2,3>>, <<3,2>>}\n"
-    lists_small = "ListsV == {<<1>>, <<2>>, <<3>>, <<6>>, <<9>>, <<2,2>>, <<1,2>>, <<4,2>>}\n"
+    lists_full = "ListsV == {<<k>> : k \\in 1..12} \\cup {<<2,11>>, <<12,2>>, <<1,1>>, <<2,2>>, <<1,2>>, <<2,1>>, <<2,4>>, <<4,2>>, <<2,3>>, <<3,2>>}\n"
+    lists_small = "ListsV == {<<1>>, <<2>>, <<3>>, <<6>>, <<9>>, <<11>>, <<2,12>>, <<2,2>>, <<1,2>>, <<4,2>>}\n"
     pruns = [
         # tag, ages, lists, l0, depth, stride
         ("pool-blocksbind", AGES[1], lists_full, 4, 4, 3 if quick else 1),
